@@ -135,6 +135,30 @@ class P1:
 @impl_converter
 def conv_rightmost(src: Src, p1: P1, c: int) -> DSame: ...  # parameters are checked from right to left: c (param) wins
 
+# from_param designates the converter PARAMETER also where the source model of that level has a field of the same name
+@dataclasses.dataclass
+class SInR:
+    x: int
+    rating: int
+@dataclasses.dataclass
+class SNestR:
+    inner: SInR
+    rating: int
+@dataclasses.dataclass
+class DInR:
+    x: int
+    rating: int          # same-named field of the nested source
+    r: int               # the converter parameter
+@dataclasses.dataclass
+class DNestR:
+    inner: DInR
+    rating: int          # top level: a same-named parameter wins over the source field
+    top: int             # from_param at the top level
+@impl_converter(recipe=[link(from_param("rating"), P[DInR].r), link(from_param("rating"), P[DNestR].top)])
+def conv_param_same_name(src: SNestR, rating: int) -> DNestR: ...
+@impl_converter(recipe=[link(from_param("rating"), P[DInR].r), link(from_param("rating"), P[DNestR].top), link(P[SNestR].rating, P[DNestR].rating)])
+def conv_param_same_name_linked(src: SNestR, rating: int) -> DNestR: ...
+
 def mk_src(a, b, c): return Src(a, b, c, extra=a)
 def mk_in(x, y): return SIn(x, y)
 def mk_nest(n, x, y, isnone, a):
@@ -165,6 +189,9 @@ def nested(n, x, y, isnone, a, rating):
     if out.items is src.items or out.by_key is src.by_key or (src.items and out.items[0] is src.items[0]): return False   # coerced recursively, new containers
     p = conv_param(src, rating, a + 5)
     if p != DNestP(inner=DIn2(src.inner.x, src.inner.y, rating), a=a + 5): return False       # from_param reaches the nested level; param `a` shadows src.a
+    sr = SNestR(SInR(x, y), a)
+    if conv_param_same_name(sr, rating) != DNestR(DInR(x, y, rating), rating, rating): return False
+    if conv_param_same_name_linked(sr, rating) != DNestR(DInR(x, y, rating), a, rating): return False      # an explicit link to the source field beats the parameter
     return src == snap
 
 def containers(n, x, b):
